@@ -48,6 +48,21 @@ static std::vector<Bytes> structured(int f) {
             Bytes h = {uint8_t(mt << 5 | ai)}; be_n(h, n, w);
             for (const Bytes& pre : {Bytes{}, Bytes{0x81}, Bytes{0xa1}, Bytes{0x9f}, Bytes{0x5f}, Bytes{0x7f}, Bytes{0xc2}, Bytes{0xd8, 0x45}, Bytes{0xd8, 0x56}, Bytes{0xc4, 0x82, 0x00}, Bytes{0xd9, 0x01, 0x00, 0x82, 0x63, 0x61, 0x61, 0x61}}) { Bytes b(pre); b.insert(b.end(), h.begin(), h.end()); with_tails(b); }
         }
+        // multi-dimensional arrays (tags 40 and 1040): every typed-array tag as storage x extents x storage shorter / exact / longer than the extents announce
+        for (int md = 0; md < 2; ++md) for (int tt = 0x40; tt <= 0x57; ++tt) {
+            int f_ = (tt >> 4) & 1, ll = tt & 3, esz = 1 << (f_ + ll); if (tt == 0x4c || tt == 0x48) esz = 1; if (esz > 16) esz = 16;
+            for (auto dims : std::vector<std::pair<uint64_t, uint64_t>>{{2, 3}, {1, 1}, {0, 5}, {3, 0}, {1, 0x100000000ULL}, {0xffffffffULL, 0xffffffffULL}}) {
+                uint64_t want = dims.first * dims.second;
+                for (long long n : {0LL, (long long)esz, (long long)(want <= 64 ? want * esz : 24) - esz, (long long)(want <= 64 ? want * esz : 24), (long long)(want <= 64 ? want * esz : 24) + esz}) {
+                    if (n < 0 || n > 255) continue;
+                    Bytes b; if (md == 0) b = {0xd8, 0x28}; else b = {0xd9, 0x04, 0x10};
+                    b.push_back(0x82); b.push_back(0x82);
+                    for (uint64_t d : {dims.first, dims.second}) { if (d < 24) b.push_back(uint8_t(d)); else { b.push_back(0x1b); be_n(b, d, 8); } }
+                    b.push_back(0xd8); b.push_back(uint8_t(tt)); b.push_back(0x58); b.push_back(uint8_t(n)); for (long long i = 0; i < n; ++i) b.push_back(uint8_t(0x3c + i));
+                    v.push_back(b);
+                }
+            }
+        }
     } else if (f == 1) {   // msgpack: every head that carries a length/count field
         struct H { int code, w; }; static const H hs[] = {{0xc4, 1}, {0xc5, 2}, {0xc6, 4}, {0xc7, 1}, {0xc8, 2}, {0xc9, 4}, {0xd9, 1}, {0xda, 2}, {0xdb, 4}, {0xdc, 2}, {0xdd, 4}, {0xde, 2}, {0xdf, 4}};
         for (auto& h : hs) for (uint64_t n : lens()) {
